@@ -2,7 +2,7 @@
 From Coq Require Import List Ascii String.
 From GT Require Import Base.GoStr Md.Parser Tree.Tree Tree.Gen Tree.Grower Api.Simple Fs.FsModel Api.Programmable
   Spec.Spelling Proofs.GenItems Proofs.Programmable Proofs.SpelledTop.
-From GT Require Import Conc.Splitter Proofs.SplitSchedule Proofs.MassiveFront.
+From GT Require Import Conc.Splitter Proofs.SplitSchedule Proofs.MassiveFront Proofs.SpelledMixed.
 Import ListNotations.
 
 (* Any two documents whose rows the line parser reads as the pre-order items of the same
@@ -29,6 +29,15 @@ Theorem C15_spelling : forall sp1 sp2 f, spells sp1 f -> spells sp2 f ->
   (forall w c s d, pstep w (PMdVerify c s d (bytes_of sp1)) = pstep w (PMdVerify c s d (bytes_of sp2))).
 Proof. exact spelling_independent. Qed.
 Print Assumptions C15_spelling.
+
+(* the MIXED notation (bullet roots first, heading roots from some root on) is part of the family too: a mixed
+   spelling agrees with every uniform spelling of the same forest and with every other mixed one, whatever the
+   split point, in every output mode and operation *)
+Theorem C15_spelling_mixed : forall ms f1 f2, mspells ms f1 f2 ->
+  (forall sp, spells sp (f1 ++ f2) -> same_results (mbytes_of ms) (bytes_of sp)) /\
+  (forall ms' g1 g2, mspells ms' g1 g2 -> f1 ++ f2 = g1 ++ g2 -> same_results (mbytes_of ms) (mbytes_of ms')).
+Proof. exact spelling_independent_mixed_all. Qed.
+Print Assumptions C15_spelling_mixed.
 
 (* with the massive option: two heading-free spellings of one forest give the same roots, whatever
    the interleaving of the generate workers in either run (each equals the forest's tries) *)
